@@ -11,6 +11,9 @@ Theorem C17_code_as_modelled :
   drop_wf OnceInitCell_drop = true.
 Proof. exact cell_as_modelled. Qed.
 
+Theorem C17_code_get_or_init_is_get_or_try_init : get_or_init_wf OnceInitCell_get_or_init = true.
+Proof. exact get_or_init_delegates. Qed.
+
 (* any number of threads, any outcome script per initialiser (succeed / fail / panic), every
    schedule: the succeeding initialiser ran exactly once iff the cell is initialised, exactly one
    of seed and value is in the cell, nothing is dropped twice, the value is never dropped before
